@@ -5,6 +5,7 @@ import (
 	sdk "github.com/cosmos/cosmos-sdk/types"
 	sdkerrors "github.com/cosmos/cosmos-sdk/types/errors"
 	undtypes "github.com/unification-com/mainchain/types"
+	beacon "github.com/unification-com/mainchain/x/beacon/exported"
 	"github.com/unification-com/mainchain/x/wrkchain/exported"
 	"github.com/unification-com/mainchain/x/wrkchain/types"
 )
@@ -50,6 +51,13 @@ func (wfd CorrectWrkChainFeeDecorator) AnteHandle(ctx sdk.Context, tx sdk.Tx, si
 	if !exported.CheckIsWrkChainTx(feeTx) {
 		// ignore and move on to the next decorator in the chain
 		return next(ctx, tx, simulate)
+	}
+
+	// the WRKChain and BEACON decorators each hold the whole transaction fee against their own
+	// module's total, so a transaction carrying both kinds of message can only pass by paying once
+	// for both; such transactions cannot be priced and are rejected
+	if beacon.CheckIsBeaconTx(feeTx) {
+		return ctx, sdkerrors.Wrap(sdkerrors.ErrInvalidRequest, "WRKChain and BEACON messages cannot be combined in one transaction")
 	}
 
 	// Check fees amount sent in Tx. Check during CheckTx. Since WrkChains have set fees that are not
